@@ -760,6 +760,11 @@ var LabelRequests = []string{
 	"{ label { title artist } }",
 	"{ labelRef { artist } l: label { title } }",
 	"{ a: labelRef { title } }",
+	// the type Tag again, this time handed out as a pointer: one GraphQL type
+	// in two Go shapes
+	"{ labelAlso { title } }",
+	"{ labelAlso { title artist } }",
+	"{ p: labelAlso { artist } v: label { title } }",
 }
 
 var AltRequests = []string{
